@@ -299,10 +299,16 @@ func main() {
 		"NodeClaim.FinalizeScheduling (reservation pinning) = pin", "Scheduler.Solve final manager state = cap0 - holders",
 		"Scheduler.addToNewNodeClaim template choice = choose_template",
 		"AllocationTracker.Commit/ReleaseInstanceTypes/IsAllocated (exclusive devices) = dcommit/drelease/dis_allocated",
+		"AllocationTracker commitCounters/releaseCounters/commitCapacity/releaseCapacity (pessimistic maximum) = lcommit/lrelease",
+		"AllocationTracker template counters / template capacity = tcommit/trelease",
+		"Allocator.Allocate proposals satisfy the tracker model's guard (guarded, lguard_b); Commit/ReleaseInstanceType = xstep",
+		"computeConsumedCapacity (request policy) = consumed_capacity/violates_policy",
 	}
-	nM, nN, nS, nT := 400, 450, 210, 250
+	nM, nN, nS, nT := 400, 450, 210, 200
+	nA, nB, nP := 150, 150, 200
 	if c.Thorough() {
-		nM, nN, nS, nT = 2000, 2500, 900, 1200
+		nM, nN, nS, nT = 2000, 2500, 900, 1000
+		nA, nB, nP = 500, 500, 800
 	}
 	for i := 0; i < nM; i++ {
 		runM(c, c.Rand.Fork(), nil)
@@ -316,13 +322,22 @@ func main() {
 	for i := 0; i < nT; i++ {
 		runT(c, c.Rand.Fork(), i)
 	}
+	for i := 0; i < nA; i++ {
+		runA(c, c.Rand.Fork(), i)
+	}
+	for i := 0; i < nB; i++ {
+		runB(c, c.Rand.Fork(), i)
+	}
+	for i := 0; i < nP; i++ {
+		runP(c, c.Rand.Fork(), i)
+	}
 	c.Meta.Extra = map[string]interface{}{
 		"assumptions": []string{
 			"reservation capacities reported by the cloud provider are non-negative (cap0 >= 0)",
 			"every reserved offering a NodeClaim sees belongs to the instance-type map the manager was built from (ids known)",
 			"goroutine interleavings inside parallelizeUntil are not modelled (CanAdd is read-only on the manager); the harness runs Solve at 1 and 4 workers",
-			"DRA: the allocator's search is not modelled; the tracker model covers exclusive-device bookkeeping only",
+			"DRA: the allocator's search (CEL selectors, constraints, DFS order) is not modelled; every proposal it makes is validated against the tracker model and the final allocation records against the specification",
 		},
 	}
-	c.Finish("From KV Require Import C17.Model C17.DraModel C17.Check.", "case", "check_all", 150)
+	c.Finish("From KV Require Import C17.Model C17.DraModel C17.DraSpec C17.Check.", "case", "check_all", 150)
 }
